@@ -199,6 +199,31 @@ pub fn check_main(id: &str, tier: &str) -> ! {
       reported = Some((path.display().to_string(), format!("{}: {}", f.violation.class, r1.detail)));
    }
 
+   // --- Engine B (Miri, nothing stubbed): cross-check of what Engine A abstracts ---------------
+   let mut engine_b = json!({"run": false, "why": "skipped because Engine A already reported a violation"});
+   if reported.is_none() && std::env::var_os("VERIF_NO_MIRI").is_none() {
+      match crate::engine_b::run_all(id, thorough, seed, &dir, jobs.min(8)) {
+         Ok(rep) => {
+            engine_b = rep.evidence;
+            if let Some((mut job, out)) = rep.violation {
+               unlisted += 1;
+               let class = out.class.clone().unwrap();
+               let name = format!("{}-miri-{}-{}.json", id, job.scenario, job.input_seed);
+               let path = PathBuf::from("/verif/replays").join(&name);
+               job.violation = Some(crate::case::ViolationInfo { property: id.to_string(), class: class.clone(), detail: out.detail.clone(), trace_hash: 0 });
+               std::fs::write(&path, serde_json::to_string_pretty(&job).unwrap()).unwrap();
+               // replay once in a fresh process: same seeds, same report class
+               let again = crate::engine_b::run_job(&job, &dir.join("miri_replay.log")).unwrap_or_else(|e| harness_error(&e));
+               if again.class.as_deref() != Some(class.as_str()) {
+                  harness_error(&format!("Engine B report {} did not reproduce on replay (got {:?})", class, again.class));
+               }
+               reported = Some((path.display().to_string(), format!("{}: {}", class, out.detail)));
+            }
+         },
+         Err(e) => harness_error(&e),
+      }
+   }
+
    // --- evidence -----------------------------------------------------------------------------
    let distinct: BTreeSet<u64> = m.nontrivial_hashes.iter().cloned().collect();
    let wall = t0.elapsed().as_secs_f64();
@@ -246,6 +271,7 @@ pub fn check_main(id: &str, tier: &str) -> ! {
          "check_specific": m.extra,
          "known_findings_matched": known_hit,
          "warnings": warnings,
+         "engine_b_miri": engine_b,
          "real_vs_stub": spec::real_vs_stub(),
       },
       "assumptions": sp.assumptions,
